@@ -4,7 +4,32 @@
 def setup(register, COMMON_TB):
     register(
         "C20", coq="C20", pkg="./cmd/gateway/", test="TestVerifC20",
-        rule="placeholder",
-        trusted_base=COMMON_TB + [],
-        assumptions=[],
+        rule="strings per validator (validateEndpoint, validateEndpointOptionalPort via stringValidatingValue.Set, validateResourceName, "
+             "validateNamespaceName, namespacedNameValue.Set, validateQualifiedName, validateGatewayControllerName, validateIP, "
+             "intValidatingValue{validatePort}.Set): mostly-valid DNS names / IPv4 / IPv6 forms / ports biased to the boundaries "
+             "(0, 1, 1023, 1024, 32767, 32768, 65535, 65536, 2^31, 2^63, 2^64, signs, leading zeros, 63/64-byte labels, 253/254-byte names, "
+             "7/8/9 groups, '::' positions, embedded IPv4), one-byte near misses, random edits with separator and NGINX-special bytes, "
+             "and a hostile stream; accepted endpoint/resolver pairs rendered into mgmt.conf by the real generator; whole command lines "
+             "through the real static-mode cobra command. Sizes ramp with the case index. non-trivial = input longer than 3 bytes "
+             "(validators) / a value was rendered (mgmt) / the command line got past flag parsing (static-mode); "
+             "distinct = distinct (validator, input, observation)",
+        trusted_base=COMMON_TB + [
+            "modelled from source, tied by the differential run only: net.SplitHostPort, strconv.ParseInt, net.ParseIP/netip.ParseAddr (Go 1.23), "
+            "k8s.io/apimachinery validation.IsDNS1123Subdomain/IsDNS1123Label/IsQualifiedName (v0.32.1, regular expressions modelled by their automaton), "
+            "the controller-name regular expression, cobra/pflag required-flag and Set handling",
+            "NGINX tokeniser (ngx_conf_read_token) modelled in C20/Model.v from the NGINX source; no NGINX binary in the sandbox; NGINX's own "
+            "interpretation of the endpoint/resolver argument (port syntax, IPv6 brackets) is outside the model",
+            "mgmt.conf: the template is transcribed in Model.render_mgmt and compared token-wise with the real generator output on every run; "
+            "the wiring commands.go -> UsageReportConfig -> GeneratorImpl is by reading (StartManager cannot be intercepted); the harness passes "
+            "the values stored by the real stringValidatingValue.Set to the real NewGeneratorImpl(...).Generate",
+            "static-mode: 'would start' is observed as RunE reaching createGatewayPodConfig (POD_IP unset), i.e. after every validation and before static.StartManager",
+        ],
+        assumptions=[
+            "documented = DNS-1123 subdomain (lower case) or dotted-quad IPv4 or RFC 4291 IPv6 text (bracketed in endpoints), port = canonical decimal 1..65535; "
+            "resource name = DNS-1123 subdomain; namespace = DNS-1123 label; controller name = gateway.nginx.org/PATH",
+            "safe = one bare NGINX token (bytes 33..126 except ; { } \" ' # $ \\) whose port, where the notation shows one, denotes a number in 1..65535 "
+            "(the weaker reading: values NGINX itself may later refuse, such as host:+80, host: or an unbracketed IPv6 resolver, are not counted)",
+            "the bracketed-IPv6 case of documented=>accepted is checked by the oracle on generated addresses, not proved for all addresses",
+        ],
+        timeout={"quick": 900, "thorough": 7200},
     )
